@@ -46,7 +46,13 @@ def main():
         meta['demo_patched_rc'] = rc1
         meta['demo_patched_tail'] = out1.strip()[-300:]
         if not skip_suite:
-            rc2, out2 = sh('cd %s && PYTHONPATH=%s /venv/bin/python -m pytest -q -p no:cacheprovider test 2>&1 | tail -3' % (scratch, scratch), 3000)
+            for _attempt in range(2):
+                rc2, out2 = sh('cd %s && PYTHONPATH=%s /venv/bin/python -m pytest -q -p no:cacheprovider test 2>&1 | tail -8' % (scratch, scratch), 3000)
+                failed = re.findall(r'FAILED (\S+)', out2)
+                meta['suite_failed_tests'] = failed
+                # test_krylov::test_eigh_krylov draws unseeded instances and fails now and then on the unmodified tree: one more try
+                if not (failed and all('test_eigh_krylov' in f for f in failed)):
+                    break
             m = re.search(r'(\d+) passed', out2)
             meta['suite_with_patch'] = out2.strip().split('\n')[-1]
             meta['suite_passed'] = bool(m) and 'failed' not in out2
